@@ -190,6 +190,10 @@ def g_linalg(ch: core.Chooser, name: str) -> dict:
     if name in ("inner", "outer"):
         m = ch.between(1, 4)
         n = m if name == "inner" else ch.between(1, 3)
+        if name == "outer" and ch.sub("nd").chance(0.4):
+            # numpy.outer flattens operands of any dimension
+            sa, sb = ch.sub("nd").choice([((), ()), ((2, 2), (2, 2)), ((), (3,)), ((2, 1), (2,)), ((3,), (1, 2)), ((2, 1, 2), ())])
+            return {"args": [_vals(ch.sub("a"), sa, kind), _vals(ch.sub("b"), sb, kind)], "kwargs": {}}
         return {"args": [_vals(ch.sub("a"), (m,), kind), _vals(ch.sub("b"), (n,), kind)], "kwargs": {}}
     if name == "matmul":
         l, m, r = ch.between(1, 3), ch.between(1, 3), ch.between(1, 3)
